@@ -674,6 +674,16 @@ func sequence(run *hx.Run, class string, mode string, secret []byte, p *fakePlay
 		switch k {
 		case "req": // a proper forwarding request
 			line, out = s.op("pm", verifexport.C20IpForwardingChannel, r.Intn(1000), genReqData(r), true)
+		case "req1", "req2", "req3", "req4": // a request for one fixed version (so that it can be repeated)
+			line, out = s.op("pm", verifexport.C20IpForwardingChannel, r.Intn(1000), []byte{k[3] - '0'}, true)
+		case "rotate": // the operator rotates forwarding.velocitySecret and the config is reloaded: the handler reads
+			// the configuration afresh on every packet, so later answers must be signed with the NEW secret
+			ns := genSecret(r)
+			if len(ns) == 0 || string(ns) == sharedCfg.Forwarding.VelocitySecret {
+				ns = append([]byte("rotated-"), ns...)
+			}
+			sharedCfg.Forwarding.VelocitySecret = string(ns)
+			line, out = "secret "+hx.Hex(ns), "-"
 		case "req128": // regression: request byte ≥ 0x80
 			line, out = s.op("pm", verifexport.C20IpForwardingChannel, 7, []byte{byte(hx.Pick(r, []int{128, 129, 200, 255}))}, true)
 		case "reqfail": // the answer cannot be written
@@ -740,6 +750,16 @@ func main() {
 	sequence(run, "fixed", "velocity", []byte("secret"), base(), []string{"ls"})
 	sequence(run, "fixed", "velocity", []byte("secret"), base(), []string{"reqfail", "ls"})
 	sequence(run, "fixed", "velocity", []byte("secret"), base(), []string{"req", "ls", "ls"})
+	// one player, the same version requested before and after a secret rotation (server switch after reload)
+	for _, v := range []string{"req1", "req4"} {
+		sequence(run, "fixed/rotate", "velocity", []byte("secret-A"), base(), []string{v, "rotate", v, "ls"})
+	}
+	{
+		p := base()
+		p.proto = 760
+		p.key = &fakeKey{revName: "v2", expiry: 1700000000000, pub: []byte{1, 2, 3}, sig: []byte{4, 5}, holder: p.id}
+		sequence(run, "fixed/rotate", "velocity", []byte("secret-A"), p, []string{"req3", "rotate", "req3", "rotate", "req3", "req2"})
+	}
 	sequence(run, "fixed", "none", []byte("secret"), base(), []string{"ls"})
 	sequence(run, "fixed", "velocity", []byte("secret"), base(), []string{"dc", "req", "ls"})
 	sequence(run, "fixed", "velocity", []byte("secret"), base(), []string{"enc", "ls"})
@@ -824,7 +844,8 @@ func main() {
 
 	// ---- section B: packet histories against the real handler
 	nB := run.Scale(500, 6000)
-	kinds := []string{"req", "req", "pm", "pm", "ls", "ls", "sc", "oth", "enc", "dc", "reqfail", "req128"}
+	kinds := []string{"req", "req", "pm", "pm", "ls", "ls", "sc", "oth", "enc", "dc", "reqfail", "req128",
+		"rotate", "rotate", "req4", "req4", "req1", "req2", "req3"}
 	for i := 0; i < nB; i++ {
 		p := genPlayer(r, r.Chance(1, 12))
 		n := 1 + r.Intn(6)
